@@ -30,6 +30,12 @@ Touch(f) == /\ alive /\ pc = "idle" /\ f \notin mem /\ Room
             /\ mem' = mem \cup {f} /\ Log(<<"touch", f>>)
             /\ UNCHANGED <<main, backup, pc, alive, saves, loaded, warned, corrupted>>
 
+\* reset_cache() / assigning time_coverage: the live object forgets everything it has cached; a later save must
+\* write that (possibly empty) state, not keep the older document
+Reset == /\ alive /\ pc = "idle" /\ mem # {} /\ Room
+         /\ mem' = {} /\ Log(<<"reset", 0>>)
+         /\ UNCHANGED <<main, backup, pc, alive, saves, loaded, warned, corrupted>>
+
 SaveOpen == /\ alive /\ pc = "idle" /\ saves < MaxSaves /\ Room
             /\ backup' = Partial(mem)                         \* opened with 'w': truncated, nothing written yet
             /\ pc' = "opened" /\ saves' = saves + 1 /\ Log(<<"save_open", 0>>)
@@ -68,7 +74,7 @@ Corrupt == /\ ~alive /\ ~corrupted /\ main.k = "doc" /\ Room
            /\ main' = Garbage /\ corrupted' = TRUE /\ Log(<<"corrupt", 0>>)
            /\ UNCHANGED <<mem, backup, pc, alive, saves, loaded, warned>>
 
-Next == (\E f \in Entries : Touch(f)) \/ SaveOpen \/ SaveWrite \/ SaveClose \/ SaveRename \/ Crash \/ ExitSave \/ Restart \/ Corrupt
+Next == (\E f \in Entries : Touch(f)) \/ Reset \/ SaveOpen \/ SaveWrite \/ SaveClose \/ SaveRename \/ Crash \/ ExitSave \/ Restart \/ Corrupt
 Spec == Init /\ [][Next]_vars
 
 \* ---- properties --------------------------------------------------------------
@@ -81,6 +87,9 @@ LoadOK == (alive /\ hist # <<>> /\ hist[Len(hist)][1] = "restart") =>
 \* a completed save followed by a restart restores everything that was cached
 RoundTrip == (Len(hist) >= 2 /\ hist[Len(hist)][1] = "restart" /\ hist[Len(hist)-1][1] = "crash"
               /\ Len(hist) >= 3 /\ hist[Len(hist)-2][1] = "save_rename") => loaded = main.e /\ main.k = "doc"
+
+\* a save completed after a reset has replaced the older, fuller document
+ResetIsSaved == (Len(hist) >= 5 /\ hist[Len(hist)][1] = "save_rename" /\ hist[Len(hist)-4][1] = "reset") => main = Doc({})
 
 Emit == (hist = <<>> \/ hist[Len(hist)][1] # "restart") \/
         PrintT(<<"CASE", ToJson([hist |-> hist, main |-> main, backup |-> backup, loaded |-> loaded, warned |-> warned])>>)
